@@ -211,24 +211,73 @@ func checkC05(c *Ctx) {
 				role = "key"
 			}
 			if role == "component" {
-				// the result of a helper whose every return is a looked-up map value (or a constant)
-				n, lookedUp := 0, 0
-				if c.traceReturns(src, 2, func(v ssa.Value) bool {
-					n++
+				// a looked-up map value that reaches the append through phis, (value, ok) helpers or
+				// single-result helpers: every leaf is a map lookup or a constant, at least one is a lookup
+				lookedUp := 0
+				var leafOK func(v ssa.Value, depth int) bool
+				leafOK = func(v ssa.Value, depth int) bool {
+					if depth == 0 {
+						return false
+					}
 					switch x := canon(v).(type) {
 					case *ssa.Const:
 						return true
 					case *ssa.Lookup:
 						lookedUp++
 						return true
+					case *ssa.Phi:
+						for _, e := range x.Edges {
+							if e != ssa.Value(x) && !leafOK(e, depth-1) {
+								return false
+							}
+						}
+						return true
 					case *ssa.Extract:
 						if _, isLk := x.Tuple.(*ssa.Lookup); isLk {
 							lookedUp++
 							return true
 						}
+						if call, isCall := x.Tuple.(*ssa.Call); isCall {
+							g := staticCallee(call)
+							if g == nil || !c.inModule(g) || g.Blocks == nil {
+								return false
+							}
+							nr := 0
+							for _, r := range returnsOf(g) {
+								if x.Index >= len(r.Results) {
+									return false
+								}
+								for _, va := range resultValues(r, x.Index) {
+									nr++
+									if !leafOK(va.Val, depth-1) {
+										return false
+									}
+								}
+							}
+							return nr > 0
+						}
+					case *ssa.Call:
+						g := staticCallee(x)
+						if g == nil || !c.inModule(g) || g.Blocks == nil {
+							return false
+						}
+						nr := 0
+						for _, r := range returnsOf(g) {
+							if len(r.Results) != 1 {
+								return false
+							}
+							for _, va := range resultValues(r, 0) {
+								nr++
+								if !leafOK(va.Val, depth-1) {
+									return false
+								}
+							}
+						}
+						return nr > 0
 					}
 					return false
-				}) && lookedUp > 0 && n > 1 {
+				}
+				if leafOK(src, 4) && lookedUp > 0 {
 					role = "value"
 				}
 			}
